@@ -68,6 +68,8 @@ pub struct Diag {
     pub file: String,
     pub line: usize,
     pub text: String,
+    /// label of the primary span (e.g. "expected `Vec<..>`, found `Option<_>`")
+    pub label: String,
 }
 
 pub enum GenResult {
@@ -189,6 +191,7 @@ impl Scratch {
                 continue;
             }
             let span = msg["spans"].as_array().and_then(|a| a.iter().find(|s| s["is_primary"] == true).or(a.first()));
+            let label = span.and_then(|s| s["label"].as_str()).unwrap_or("").to_string();
             let (file, line_no, text) = match span {
                 Some(s) => (
                     s["file_name"].as_str().unwrap_or("").to_string(),
@@ -203,6 +206,7 @@ impl Scratch {
                 file,
                 line: line_no,
                 text,
+                label,
             });
         }
         if !out.status.success() && diags.is_empty() {
